@@ -394,7 +394,7 @@ func randomJobs(r *mon.Run, n int, bigSizes bool) []*job {
 		rng := r.Rand(9, uint64(i))
 		size := 1 + rng.IntN(200)
 		switch k := rng.IntN(50); {
-		case k == 0 && bigSizes:
+		case k == 0 && bigSizes && rng.IntN(4) == 0:
 			size = 1 + rng.IntN(4<<20)
 		case k < 3:
 			size = 1 + rng.IntN(256<<10)
@@ -558,7 +558,7 @@ func main() {
 	r.SetExhaustive(true)
 	r.Set("enumerated_scripts", len(ej))
 	t1 := time.Now()
-	rj := randomJobs(r, r.N(500, 30000), r.Thorough())
+	rj := randomJobs(r, r.N(500, 12000), r.Thorough())
 	runJobs(r, rj, workers, 60)
 	r.Set("random_remainder_scripts", len(rj))
 	r.Set("arm_wall_s", map[string]float64{"enumeration": t1.Sub(t0).Seconds(), "random": time.Since(t1).Seconds()})
